@@ -50,7 +50,7 @@ def contracts():
     ensures """ + FS_FRAME + """
         // C02: whatever the file held before, a successful write leaves exactly the new content
         r is Ok ==> final(w).fs.files.contains_key(file_path_spec(*fm, file_type))
-            && final(w).fs.files[file_path_spec(*fm, file_type)] == data@, //@C02.exact_content,C07.success_is_reported_only_when_the_file_is_installed,C03.what_is_reported_written_is_written
+            && final(w).fs.files[file_path_spec(*fm, file_type)] == data@, //@C02.exact_content,C07.success_is_reported_only_when_the_file_is_installed,C03.what_is_reported_written_is_written,C01.the_key_that_is_stored_is_the_key_of_the_csr
         // nothing but the target file is touched
         others_untouched(old(w).fs, final(w).fs, file_path_spec(*fm, file_type)), //@C02.other_files_untouched
         // C13: a file that did not exist is created with the mode configured for its type (0600 for accounts)
@@ -69,7 +69,7 @@ def contracts():
     proof {
         let p = file_path_spec(*fm, file_type);
         // (stated before the trace below: a failed proof step is assumed by the verifier, and must not hide this clause)
-        assert(w.fs.files.contains_key(p) && w.fs.files[p] == data@); //@C02.exact_content,C07.success_is_reported_only_when_the_file_is_installed,C03.what_is_reported_written_is_written
+        assert(w.fs.files.contains_key(p) && w.fs.files[p] == data@); //@C02.exact_content,C07.success_is_reported_only_when_the_file_is_installed,C03.what_is_reported_written_is_written,C01.the_key_that_is_stored_is_the_key_of_the_csr
         assert(w.fs.events =~= old(w).fs.events + write_trace(*fm, file_type, !old(w).fs.files.contains_key(p))); //@C10.file_hook_bracket,C13.chown_after_write
     }""")])
     for name, ft in [("set_account_data", "Account"), ("write_certificate", "Certificate")]:
